@@ -1,1 +1,2 @@
 pub mod r1;
+pub mod r7;
